@@ -4,14 +4,16 @@ import BearVerif.Core.Decor
   Line-protocol driver for C13: `(c13 ENV CONF OBJECT N)`.
 
   ENV    = `opt` | `noopt`                 (python -O or not)
-  CONF   = `o0` | `def`                    (strategy O0 or any other)
+  CONF   = `o0` | `def` | `warn`           (strategy O0; any other; `warning_cls_on_decorator_exception` set)
   OBJECT = `(f FUNC)` | `(c OID FUNC)` | `(s OID FUNC)` | `(p OID DOC FUNC FUNC? FUNC?)`
          | `(k OID (QUAL…) BT ((NAME OBJECT)…) ((NAME OBJECT)…))` | `(o OID)`
-  FUNC   = `(OID NAME DOC SIG ANN NTC MARKER WRAPPED)`, ANN = `none|ign|chk`, WRAPPED = `none` | FUNC, `FUNC?` = `none` | FUNC
+  FUNC   = `(OID NAME DOC SIG ANN NTC MARKER WRAPPED)`, ANN = `none|ign|chk|bad` (`bad`: a hint rejected at decoration time), WRAPPED = `none` | FUNC, `FUNC?` = `none` | FUNC
   N      = first free object id
 
-  Response `(R1 N1 R2 N2)`: the object after `beartype(conf=CONF)(OBJECT)`, the counter, and the same
-  for a second application to the result (idempotence), in the request's syntax.
+  Response `(R1 N1 R2 N2 X1 W1 X2 W2)`: the object after `beartype(conf=CONF)(OBJECT)` (as the call left
+  it, also when it raised), the counter, and the same for a second application to the result
+  (idempotence), in the request's syntax; `Xi` = `true` when application i raised, `Wi` = number of
+  warnings application i issued.
 -/
 namespace BearVerif.Decor
 open BearVerif
@@ -25,6 +27,7 @@ def annOf : Sexp → Option Ann
   | .atom "none" => some .none
   | .atom "ign" => some .ignorable
   | .atom "chk" => some .checked
+  | .atom "bad" => some .failing
   | _ => none
 
 partial def funcOf : Sexp → Option Func
@@ -64,7 +67,7 @@ def bstr (b : Bool) : Sexp := .atom (if b then "true" else "false")
 partial def funcStr : Func → Sexp
   | .mk o nm doc sg an nt mk w =>
     .list [.atom (toString o), .atom nm, .atom doc, .atom (sg.headD ""),
-      .atom (match an with | .none => "none" | .ignorable => "ign" | .checked => "chk"),
+      .atom (match an with | .none => "none" | .ignorable => "ign" | .checked => "chk" | .failing => "bad"),
       bstr nt, bstr mk, (match w with | none => .atom "none" | some f => funcStr f)]
 
 def funcOptStr : Option Func → Sexp
@@ -95,12 +98,15 @@ def handle (args : List Sexp) : Option Sexp := do
   match args with
   | [e, c, obj, n] =>
     let env : Env ← (match e with | .atom "opt" => some ⟨true⟩ | .atom "noopt" => some ⟨false⟩ | _ => none)
-    let conf : Conf ← (match c with | .atom "o0" => some ⟨true⟩ | .atom "def" => some ⟨false⟩ | _ => none)
+    let conf : Conf ← (match c with
+      | .atom "o0" => some ⟨true, false⟩ | .atom "def" => some ⟨false, false⟩ | .atom "warn" => some ⟨false, true⟩
+      | _ => none)
     let m ← memberOf obj
     let n ← n.nat?
-    let r1 := beartype env conf m n
-    let r2 := beartype env conf r1.1 r1.2
-    pure (quoted (.list [memberStr r1.1, .atom (toString r1.2), memberStr r2.1, .atom (toString r2.2)]))
+    let r1 := beartype env conf m ⟨n, 0⟩
+    let r2 := beartype env conf r1.val ⟨r1.st.next, 0⟩
+    pure (quoted (.list [memberStr r1.val, .atom (toString r1.st.next), memberStr r2.val, .atom (toString r2.st.next),
+      bstr r1.raised, .atom (toString r1.st.warns), bstr r2.raised, .atom (toString r2.st.warns)]))
   | _ => none
 
 end BearVerif.Decor
